@@ -12,7 +12,7 @@ prog = doc["input"] if "lib" in doc.get("input", {}) else doc["program"]
 def bad(p):
     try:
         (rep, sp), = rc.batch([p])
-        real = tplgen.run_real(p, limit=3.0)
+        real = tplgen.run_real(p, limit=20.0)
     except Exception:
         return False
     return (rc.cmp_model(real, rep) if mode == "model" else rc.cmp_spec(real, sp)) is not None
